@@ -1,25 +1,18 @@
 import LoguruModel.Format.Lemmas
 /-! `_parse_with_formatting` against the reference `str.format`: the guards under which the two
-auto-numbering rules and the two depth guards coincide, and the simulation lemmas. -/
+depth guards coincide, and the simulation lemmas (the auto-numbering rules coincide everywhere since d5e7115). -/
+set_option linter.unusedSimpArgs false
 namespace Format
 open Py Py.Fmt
 
-/-- the field name is empty, or all digits, or its first component is neither empty nor all digits:
-exactly the names on which "whole name" (loguru / string.Formatter) and "first component" (str.format)
-numbering agree -/
-def simpleHead (name : Str) : Bool :=
-  name.isEmpty || allDigits name || (!(firstOf name).isEmpty && !allDigits (firstOf name))
-
 def fieldsOf (t : Str) : List Field := (parse t).1.filterMap (·.field)
 
-/-- a spec without `{` has no `}` either (true of every spec the parser yields; kept as a decidable guard) -/
+/-- a spec without `{` has no `}` either – true of every spec the parser yields (SpecOk.lean) -/
 def specOk (spec : Str) : Bool := spec.contains '{' || !spec.contains '}'
 
-/-- guard on the fields of the template and of its format specs, with the parser invariant `specOk`
-spelled out (`Format.simpleHeads` in SpecOk.lean is the guard without it) -/
-def simpleHeadsOk (t : Str) : Bool :=
-  (fieldsOf t).all (fun f => simpleHead f.name && specOk f.spec &&
-    (fieldsOf f.spec).all (fun g => simpleHead g.name && specOk g.spec))
+/-- `specOk` on the fields of the template and of its format specs (always true, `specsOk_all`) -/
+def specsOk (t : Str) : Bool :=
+  (fieldsOf t).all (fun f => specOk f.spec && (fieldsOf f.spec).all (fun g => specOk g.spec))
 
 /-- no third nesting level: a field inside a format spec has no `{` in its own spec -/
 def shallow (t : Str) : Bool :=
@@ -37,77 +30,82 @@ def Rel {α : Type} (a : Except Err (α × AN)) (b : Except Err (α × Option Na
   | .error e, .error e' => e = e'
   | _, _ => False
 
-theorem digit_notSep {c : Char} (h : isAsciiDigit c = true) : notSep c = true := by
-  have h1 : c ≠ '.' := by intro e; subst e; revert h; decide
-  have h2 : c ≠ '[' := by intro e; subst e; revert h; decide
-  simp [notSep, h1, h2]
+/-- the generated rule is the first-component rule of `field_name_split` -/
+theorem numberingText_eq (name : Str) : numberingText name = firstOf name := by
+  unfold numberingText headOf firstOf
+  simp only [Gen.numberingSubject]
+  congr 1
+  funext c
+  by_cases h1 : c = '.' <;> by_cases h2 : c = '[' <;> simp [Gen.headSeparators, notSep, h1, h2]
 
-theorem all_digits_split {s : Str} (h : s.all isAsciiDigit = true) :
-    s.takeWhile notSep = s ∧ s.dropWhile notSep = [] := by
-  induction s with
-  | nil => exact ⟨rfl, rfl⟩
-  | cons c cs ih =>
-    simp only [List.all_cons, Bool.and_eq_true] at h
-    have := ih h.2
-    simp [List.takeWhile, List.dropWhile, digit_notSep h.1, this]
+theorem prefixes : Gen.autoIndexPrefixesName = true := rfl
 
-theorem split_digits {name : Str} (h : allDigits name = true) :
-    fieldNameSplit name = (First.num (digitsVal name), ([], none)) := by
-  have h' : name.all isAsciiDigit = true := by
-    simp only [allDigits, Bool.and_eq_true] at h; exact h.2
-  obtain ⟨e1, e2⟩ := all_digits_split h'
-  simp [fieldNameSplit, firstOf, restOf, e1, e2, getInteger, h, stepsFuel]
-
-theorem split_empty : fieldNameSplit [] = (First.name [], ([], none)) := by rfl
-
-theorem walk_nil {V} (env : Env V) (v : V) : walk env v ([], none) = .ok v := by rfl
-
-/-- under `simpleHead` both numbering rules pick the same object, or fail alike -/
-theorem head_rel {V} (env : Env V) (hA : env.hasArgs = true) (name : Str) (h : simpleHead name = true)
+/-- both numbering rules pick the same object, or fail alike, for EVERY field name -/
+theorem head_rel {V} (env : Env V) (hA : env.hasArgs = true) (name : Str)
     (an : AN) (au : Option Nat) (r : R an au) :
     Rel (getFieldObject env an name) (lgGetField env name au) := by
-  by_cases h0 : name = []
-  · subst h0
-    unfold getFieldObject lgGetField
-    rw [split_empty]
+  unfold getFieldObject lgGetField numberField
+  rw [numberingText_eq, prefixes]
+  cases hfo : firstOf name with
+  | nil =>
+    have hsp : (fieldNameSplit name).1 = First.name [] := by
+      simp [fieldNameSplit, hfo, getInteger, allDigits]
+    rw [hsp]
     cases r with
     | init =>
-      simp only [lookupFirst, numberField, getArg, hA, getFieldSplit, List.isEmpty_nil, if_true]
-      cases env.args[0]? <;> simp [Except.map, walk_nil, Rel, R.auto 0]
+      simp only [lookupFirst, getArg, hA, getFieldSplit, List.isEmpty_nil, if_true]
+      cases env.args[0]? with
+      | none => simp [Except.map, Rel]
+      | some v =>
+        simp only [Except.map]
+        cases walk env v (fieldNameSplit name).2 with
+        | error e => simp [Rel]
+        | ok v' => simp [Rel, R.auto 0]
     | auto n =>
-      simp only [lookupFirst, numberField, getArg, hA, getFieldSplit, List.isEmpty_nil, if_true]
-      cases env.args[n + 1]? <;> simp [Except.map, walk_nil, Rel, R.auto (n + 1)]
-    | manual => simp [lookupFirst, numberField, Rel]
-  · have hne : name.isEmpty = false := by cases name <;> simp_all
-    by_cases hd : allDigits name = true
-    · unfold getFieldObject lgGetField
-      rw [split_digits hd]
+      simp only [lookupFirst, getArg, hA, getFieldSplit, List.isEmpty_nil, if_true]
+      cases env.args[n + 1]? with
+      | none => simp [Except.map, Rel]
+      | some v =>
+        simp only [Except.map]
+        cases walk env v (fieldNameSplit name).2 with
+        | error e => simp [Rel]
+        | ok v' => simp [Rel, R.auto (n + 1)]
+    | manual => simp [lookupFirst, Rel]
+  | cons c cs =>
+    have hne : (c :: cs).isEmpty = false := rfl
+    simp only [hne, Bool.false_eq_true, if_false]
+    by_cases hd : allDigits (c :: cs) = true
+    · have hsp : (fieldNameSplit name).1 = First.num (digitsVal (c :: cs)) := by
+        simp [fieldNameSplit, hfo, getInteger, hd]
+      simp only [hd, if_true]
       cases r with
       | init =>
-        simp only [lookupFirst, numberField, hne, hd, getArg, hA, getFieldSplit, if_true]
-        rw [split_digits hd]
-        cases hx : env.args[digitsVal name]? <;> simp [hx, Except.map, walk_nil, Rel, R.manual]
-      | auto n => simp [lookupFirst, numberField, hne, hd, Rel]
-      | manual =>
-        simp only [lookupFirst, numberField, hne, hd, getArg, hA, getFieldSplit, if_true]
-        rw [split_digits hd]
-        cases hx : env.args[digitsVal name]? <;> simp [hx, Except.map, walk_nil, Rel, R.manual]
-    · have hd' : allDigits name = false := by simpa using hd
-      simp only [simpleHead, hne, hd', Bool.false_or, Bool.and_eq_true, Bool.not_eq_true'] at h
-      obtain ⟨hf1, hf2⟩ := h
-      unfold getFieldObject lgGetField
-      have hsp : (fieldNameSplit name).1 = First.name (firstOf name) := by
-        simp [fieldNameSplit, getInteger, hf2]
-      cases hfo : firstOf name with
-      | nil => simp [hfo] at hf1
-      | cons c cs =>
-        simp only [numberField, hne, hd', hsp, hfo, lookupFirst, getFieldSplit]
-        cases hk : env.kwargs (c :: cs) with
-        | error e => simp [hsp, hfo, hk, Except.map, Rel]
-        | ok v =>
+        simp only [hsp, lookupFirst, getArg, hA, getFieldSplit, if_true]
+        cases hx : env.args[digitsVal (c :: cs)]? with
+        | none => simp [hsp, hx, Except.map, Rel]
+        | some v =>
           cases hw : walk env v (fieldNameSplit name).2 with
-          | error e => simp [hsp, hfo, hk, hw, Except.map, Rel]
-          | ok v' => simp [hsp, hfo, hk, hw, Except.map, Rel, r]
+          | error e => simp [hsp, hx, hw, Except.map, Rel]
+          | ok v' => simp [hsp, hx, hw, Except.map, Rel, R.manual]
+      | auto n => simp [hsp, lookupFirst, Rel]
+      | manual =>
+        simp only [hsp, lookupFirst, getArg, hA, getFieldSplit, if_true]
+        cases hx : env.args[digitsVal (c :: cs)]? with
+        | none => simp [hsp, hx, Except.map, Rel]
+        | some v =>
+          cases hw : walk env v (fieldNameSplit name).2 with
+          | error e => simp [hsp, hx, hw, Except.map, Rel]
+          | ok v' => simp [hsp, hx, hw, Except.map, Rel, R.manual]
+    · have hd' : allDigits (c :: cs) = false := by simpa using hd
+      have hsp : (fieldNameSplit name).1 = First.name (c :: cs) := by
+        simp [fieldNameSplit, hfo, getInteger, hd']
+      simp only [hd', Bool.false_eq_true, if_false, hsp, lookupFirst, getFieldSplit]
+      cases hk : env.kwargs (c :: cs) with
+      | error e => simp [hsp, hk, Except.map, Rel]
+      | ok v =>
+        cases hw : walk env v (fieldNameSplit name).2 with
+        | error e => simp [hsp, hk, hw, Except.map, Rel]
+        | ok v' => simp [hsp, hk, hw, Except.map, Rel, r]
 
 theorem Rel.error_left {α : Type} {e : Err} {b : Except Err (α × Option Nat)}
     (h : Rel (Except.error e : Except Err (α × AN)) b) : b = .error e := by
@@ -126,7 +124,6 @@ theorem pieces_rel {V} (env : Env V) (hA : env.hasArgs = true)
     (selfP : Str → AN → Except Err (Str × AN))
     (selfL : Str → Option Nat → Except Err (Str × Option Nat))
     (ps : List Piece)
-    (hh : ∀ p ∈ ps, ∀ f, p.field = some f → simpleHead f.name = true)
     (hs : ∀ p ∈ ps, ∀ f, p.field = some f → ∀ an au, R an au →
         Rel (if needsExpanding f.spec then selfP f.spec an else .ok (f.spec, an)) (selfL f.spec au)) :
     ∀ an au, R an au → Rel (renderPieces selfP env ps an) (pwfPieces selfL env ps au) := by
@@ -134,7 +131,7 @@ theorem pieces_rel {V} (env : Env V) (hA : env.hasArgs = true)
   | nil => intro an au r; simp [renderPieces, pwfPieces, Rel, r]
   | cons p ps ih =>
     intro an au r
-    have ih' := ih (fun q hq => hh q (List.mem_cons_of_mem _ hq)) (fun q hq => hs q (List.mem_cons_of_mem _ hq))
+    have ih' := ih (fun q hq => hs q (List.mem_cons_of_mem _ hq))
     unfold renderPieces pwfPieces
     cases hf : p.field with
     | none =>
@@ -149,7 +146,7 @@ theorem pieces_rel {V} (env : Env V) (hA : env.hasArgs = true)
         rw [e]; simp [Rel, r']
     | some f =>
       simp only
-      have h1 := head_rel env hA f.name (hh p (List.mem_cons_self ..) f hf) an au r
+      have h1 := head_rel env hA f.name an au r
       cases hg : getFieldObject env an f.name with
       | error e => rw [hg] at h1; rw [h1.error_left]; simp [Rel]
       | ok w =>
@@ -215,13 +212,12 @@ theorem mem_fieldsOf {t : Str} {p : Piece} {f : Field} (hp : p ∈ (parse t).1) 
 
 /-- one level: if the spec expansions agree on the fields of `t`, so do `build_string` and `_parse_with_formatting` -/
 theorem level_rel {V} (env : Env V) (hA : env.hasArgs = true) (d k : Nat) (t : Str)
-    (hh : ∀ f ∈ fieldsOf t, simpleHead f.name = true)
     (hs : ∀ f ∈ fieldsOf t, ∀ an au, R an au →
         Rel (if needsExpanding f.spec then buildString env d f.spec an else .ok (f.spec, an)) (pwf env k f.spec au)) :
     ∀ an au, R an au → Rel (buildString env (d + 1) t an) (pwf env (k + 1) t au) := by
   intro an au r
   have h := pieces_rel env hA (buildString env d) (pwf env k) (parse t).1
-    (fun p hp f hf => hh f (mem_fieldsOf hp hf)) (fun p hp f hf => hs f (mem_fieldsOf hp hf)) an au r
+    (fun p hp f hf => hs f (mem_fieldsOf hp hf)) an au r
   unfold buildString pwf
   cases hr : renderPieces (buildString env d) env (parse t).1 an with
   | error e => rw [hr] at h; rw [h.error_left]; simp [Rel]
@@ -232,25 +228,24 @@ theorem level_rel {V} (env : Env V) (hA : env.hasArgs = true) (d k : Nat) (t : S
     rw [e]
     by_cases hp : (parse t).2.isSome = true <;> simp [hp, Rel, r']
 
-/-- the coloured path computes what `str.format` computes on templates whose field heads are simple
-and that have no third nesting level -/
+/-- the coloured path computes what `str.format` computes on templates without a third nesting level -/
 theorem colored_rel {V} (env : Env V) (hA : env.hasArgs = true) (t : Str)
-    (h1 : simpleHeadsOk t = true) (h2 : shallow t = true) :
+    (h1 : specsOk t = true) (h2 : shallow t = true) :
     Rel (buildString env 2 t .init) (pwf env 3 t (some 0)) := by
-  simp only [simpleHeadsOk, List.all_eq_true, Bool.and_eq_true] at h1
+  simp only [specsOk, List.all_eq_true, Bool.and_eq_true] at h1
   simp only [shallow, List.all_eq_true, Bool.not_eq_true'] at h2
-  refine level_rel env hA 1 2 t (fun f hf => (h1 f hf).1.1) ?_ .init (some 0) R.init
+  refine level_rel env hA 1 2 t ?_ .init (some 0) R.init
   intro f hf an au r
   by_cases hn : needsExpanding f.spec = true
   · simp only [hn, if_true]
-    refine level_rel env hA 0 1 f.spec (fun g hg => ((h1 f hf).2 g hg).1) ?_ an au r
+    refine level_rel env hA 0 1 f.spec ?_ an au r
     intro g hg an' au' r'
     have hne := h2 f hf g hg
-    have nb := noBrace_of_specOk ((h1 f hf).2 g hg).2 hne
+    have nb := noBrace_of_specOk ((h1 f hf).2 g hg) hne
     rw [pwf_noBrace env 0 nb, hne]
     simp [Rel, r']
   · have hn' : needsExpanding f.spec = false := by simpa using hn
-    have nb := noBrace_of_specOk (h1 f hf).1.2 hn'
+    have nb := noBrace_of_specOk (h1 f hf).1 hn'
     rw [pwf_noBrace env 1 nb, hn']
     simp [Rel, r]
 
